@@ -615,3 +615,469 @@ bent_plume_model.Model(simfile=os.path.join(d, 'b.nc'))    # AttributeError: 'No
 # (load_sim documents: "If the load fails, a warning will be reported ..., but the other steps ... will be performed";
 #  single_bubble_model and stratified_plume_model do continue)
 '''
+
+
+# ---------------------------------------------------------------------------
+# the check
+# ---------------------------------------------------------------------------
+
+DATE_ATTRS = ('date_created', 'date_modified')
+GROUP_TOL = 1e-15       # re-normalising an already normalised delta_groups row moves it by at most a few ulp
+
+
+class Job:
+    """requests queued for the Lean driver, with what to compare the answers with"""
+
+    def __init__(self):
+        self.lines = []
+        self.expect = []
+
+    def add(self, name, args, kind, payload):
+        self.lines.append(name + ' ' + ' '.join(args))
+        self.expect.append((name, kind, payload))
+
+
+def header_of(dump):
+    a = dict(dump['attrs'])
+    return {'title': a.get('title', ''), 'summary': a.get('summary', ''), 'source': a.get('source', ''),
+            'created': a.get('date_created', ''), 'modified': a.get('date_modified', '')}
+
+
+def strip_dates(d):
+    return {'attrs': [(k, ('' if k in DATE_ATTRS else v)) for k, v in d['attrs']], 'dims': d['dims'],
+            'vars': [{k: (w.tolist() if isinstance(w, np.ndarray) else w) for k, w in v.items() if k != 'shape'} for v in d['vars']]}
+
+
+def dumps_equal(d1, d2):
+    """two real files equal up to the date attributes (NaN-aware)"""
+    return not diff_files(d1, {'attrs': d2['attrs'], 'dims': d2['dims'], 'vars': d2['vars']}, skip_attr_values=DATE_ATTRS)
+
+
+def report_losses(ctx, diffs, orig_particles, where, spec, prefix=''):
+    """turn field differences between an original and a reloaded record into violations"""
+    for field, a, b in diffs:
+        mobj = re.match(r'particles\[(\d+)\]\.', field)
+        odbm = orig_particles[int(mobj.group(1))]['dbm'] if mobj and orig_particles else None
+        f = re.sub(r'^particles\[\d+\]\.', '', field)
+        if f == 'delta' and odbm is not None and odbm['calc_delta'] > 0:
+            # group-contribution mode overwrites every delta_ij at each EOS call: the stored matrix is immaterial
+            ctx.count('delta-ignored(calc_delta>0)')
+            continue
+        key = prefix + loss_key(field, a, b, odbm)
+        ctx.count('violation ' + key)
+        case = {'where': where, 'field': field, 'original': a, 'reloaded': b, 'spec': sc.jsonable(spec)}
+        if key in REPRO:
+            case['stand_alone_reproduction'] = REPRO[key]
+        ctx.violation(key, '%s: %s is not restored by save -> load (original %s, reloaded %s)' %
+                      (where, field, str(a)[:80], str(b)[:80]), case)
+
+
+def user_keys_differ(ps):
+    sets = [tuple(sorted(p['dbm']['user_data'] and [u['name'] for u in p['dbm']['user_data']])) for p in ps
+            if p['dbm']['sol'] and p['dbm']['user_data']]
+    return len(set(sets)) > 1
+
+
+def check_particle_list(ctx, job, tmp, idx, spec):
+    from netCDF4 import Dataset
+    from tamoc import dispersed_phases, model_share
+    ptype = spec['ptype']
+    objs, chem, KT0 = sc.build_particle_list(spec)
+    recs = [abs_particle(o, ptype) for o in objs]
+    ctx.count('list ptype=%d %s' % (ptype, spec['kind']))
+    args = [N(ptype)] + names(chem) + enc_particles(recs) + [V(KT0)]
+
+    def write(path, particles, chem_names, K_T0):
+        nc = model_share.tamoc_nc_file(path, 'particles', 'none', 'none')
+        try:
+            nc.createDimension('params', 1)
+            for nme in ('Ta', 'Sa', 'P'):
+                nc.createVariable(nme, 'f8', ('params',))[0] = spec[nme]
+            dispersed_phases.save_particle_to_nc_file(nc, chem_names, particles, K_T0)
+        finally:
+            nc.close()
+
+    def section(d):
+        return {'attrs': d['attrs'][12:], 'dims': [x for x in d['dims'] if x[0] != 'params'],
+                'vars': [v for v in d['vars'] if v['name'] not in ('Ta', 'Sa', 'P')]}
+
+    f1 = os.path.join(tmp, 'pl%d.nc' % idx)
+    try:
+        with sc.quiet():
+            write(f1, objs if ptype else objs[0], chem, KT0 if ptype else KT0[0])
+    except Exception as e:
+        key = 'save-raises:particles:user_data-keys' if user_keys_differ(recs) else 'save-raises:particles'
+        ctx.count('violation ' + key)
+        case = {'error': '%s: %s' % (type(e).__name__, e), 'spec': sc.jsonable(spec)}
+        if key in REPRO:
+            case['stand_alone_reproduction'] = REPRO[key]
+        ctx.violation(key, 'save_particle_to_nc_file raises %s on a valid particle list' % type(e).__name__, case)
+        job.add('SaveLoad.particles.save', args, 'raises', {'what': 'particle list %d' % idx})
+        return
+    d1 = dump_nc(f1)
+    job.add('SaveLoad.particles.save', args, 'file', {'real': section(d1), 'what': 'particle list %d' % idx, 'skip': ()})
+    nc = Dataset(f1)
+    try:
+        with sc.quiet():
+            loaded, chem2 = dispersed_phases.load_particle_from_nc_file(nc)
+    except Exception as e:
+        ctx.violation('load-raises:particles', 'load_particle_from_nc_file raises %s on a file the writer produced' % type(e).__name__,
+                      {'error': '%s: %s' % (type(e).__name__, e), 'spec': sc.jsonable(spec)})
+        return
+    finally:
+        nc.close()
+    recs2 = [abs_particle(o, ptype) for o in loaded]
+    job.add('SaveLoad.particles.load', args, 'particles', {'real': recs2, 'chem': list(chem2), 'what': 'particle list %d' % idx})
+    diffs = diff_particles(recs, recs2, GROUP_TOL, state=True)
+    if list(chem2) != list(chem):
+        diffs.append(('composition', chem, list(chem2)))
+    report_losses(ctx, diffs, recs, 'particle list (class %d)' % ptype, spec)
+    # re-save what was loaded, reload: nothing may change any more
+    f2 = os.path.join(tmp, 'pl%d_b.nc' % idx)
+    try:
+        with sc.quiet():
+            write(f2, loaded if ptype else loaded[0], chem2, [q.K_T for q in loaded] if ptype else loaded[0].K_T)
+        d2 = dump_nc(f2)
+        job.add('SaveLoad.particles.resave', args, 'file', {'real': section(d2), 'what': 're-saved particle list %d' % idx, 'skip': ()})
+        soft = [x for x in diff_files(section(d1), section(d2)) if 'delta_groups' not in x]
+        if soft:
+            ctx.violation('resave-differs:particles', 'saving the reloaded particle list gives a different file',
+                          {'differences': soft[:5], 'spec': sc.jsonable(spec)})
+        nc = Dataset(f2)
+        try:
+            with sc.quiet():
+                loaded3, _c = dispersed_phases.load_particle_from_nc_file(nc)
+        finally:
+            nc.close()
+        d3 = diff_particles(recs2, [abs_particle(o, ptype) for o in loaded3], GROUP_TOL, state=True)
+        for field, a, b in d3:
+            ctx.violation('reload-differs:' + field, 'second reload differs from the first', {'field': field, 'first': a, 'second': b, 'spec': sc.jsonable(spec)})
+    except Exception as e:
+        ctx.violation('resave-raises:particles', 'saving / reloading the reloaded particle list raises %s' % type(e).__name__,
+                      {'error': '%s: %s' % (type(e).__name__, e), 'trace': traceback.format_exc()[-600:], 'spec': sc.jsonable(spec)})
+    ctx.evaluations += 1
+    for f in (f1, f2):
+        if os.path.exists(f):
+            os.remove(f)
+
+
+def check_profile(ctx, job, tmp, idx, ps):
+    """create_nc_db + fill_nc_db, file vs model, read back vs the table in memory"""
+    from netCDF4 import Dataset
+    from tamoc import ambient
+    path = os.path.join(tmp, 'prf%d.nc' % idx)
+    with sc.quiet():
+        nc, data, nms, units, comments = sc.write_profile(ps, path)
+        nc.close()
+    d = dump_nc(path)
+    h = header_of(d)
+    args = [S(h['created']), S(h['modified']), S(h['summary']), S(h['source']), S(ps['sea_name']), F(ps['lat']), F(ps['lon']),
+            F(ps['time']), S(nms[0]), S(units[0]), S(comments[0]), V(data[:, 0]), N(len(nms) - 1)]
+    for j in range(1, len(nms)):
+        args += [S(nms[j]), S(units[j]), S(comments[j]), V(data[:, j])]
+    job.add('SaveLoad.profile.save', args, 'file', {'real': d, 'what': 'profile %d' % idx, 'skip': ()})
+    ztsp, chems = nms[:4], nms[4:]
+    nc = Dataset(path)
+    try:
+        got, zu, cu = ambient.get_nc_data(nc, ztsp, chems)
+    finally:
+        nc.close()
+    job.add('SaveLoad.profile.load', args + names(ztsp) + names(chems), 'profile',
+            {'real': got, 'names': nms, 'units': zu + cu, 'what': 'profile %d' % idx})
+    ctx.evaluations += 1
+    if not same(got, data):
+        ctx.violation('profile-data-differs', 'get_nc_data does not return the table written by fill_nc_db',
+                      {'profile': sc.jsonable(ps)})
+    # interpolation: the profile read back from the file vs the same table in memory
+    with sc.quiet():
+        p_file = ambient.Profile(Dataset(path), chem_names='all')
+        p_file.close_nc()
+        p_path = ambient.Profile(path, chem_names='all')
+        p_mem = ambient.Profile(data.copy(), ztsp=ztsp, chem_names=list(chems), chem_units=units[4:], ztsp_units=units[:4])
+    r = np.random.default_rng(ps['zseed'] + 1)
+    zz = np.concatenate([r.uniform(-20., ps['H'] + 50., 300), data[:, 0], [0., ps['H']]])
+    q = nms[1:]
+    a, b, c = p_mem.get_values(zz, q), p_file.get_values(zz, q), p_path.get_values(zz, q)
+    ctx.evaluations += len(zz)
+    ctx.count('profile %s%s%s' % ('irregular' if ps['irregular'] else 'regular', ' +chems' if chems and chems != ['ua'] else '', ' +ua' if 'ua' in chems else ''))
+    for tag, x in (('netCDF4.Dataset', b), ('file name (xarray)', c)):
+        if not same(a, x):
+            bad = np.argwhere(~((a == x) | (np.isnan(a) & np.isnan(x))))[:3]
+            ctx.violation('profile-interp-differs', 'a profile written to netCDF and read back (%s) does not interpolate identically' % tag,
+                          {'profile': sc.jsonable(ps), 'first differences (row, column)': bad.tolist(),
+                           'depths': zz[bad[:, 0]].tolist() if len(bad) else []})
+    return path, p_file
+
+
+def farfield_pairs(m, m2):
+    out = []
+    for i, (p, q) in enumerate(zip(m.particles, m2.particles)):
+        if p.farfield:
+            out.append((i, p, q))
+    return out
+
+
+def check_sim(ctx, job, cdir, kind, m, spec, tag):
+    """save -> file vs model -> load -> compare -> re-save -> re-load -> compare; text export; profile"""
+    from netCDF4 import Dataset
+    from tamoc import dispersed_phases, single_bubble_model, bent_plume_model, stratified_plume_model
+    Model = {'sbm': single_bubble_model.Model, 'bpm': bent_plume_model.Model, 'spm': stratified_plume_model.Model}[kind]
+    rec = ABS[kind](m)
+    where = '%s simulation (%s)' % (kind, spec['kind'])
+    f1 = os.path.join(cdir, 'sim.nc')
+    ntr = len(spec.get('tracers', [1]))
+    try:
+        with sc.quiet():
+            m.save_sim(f1, 'prf.nc', 'C18 profile info')
+    except Exception as e:
+        key = 'save-raises:bpm:no-tracers' if (kind == 'bpm' and ntr == 0) else 'save-raises:' + kind
+        ctx.count('violation ' + key)
+        case = {'error': '%s: %s' % (type(e).__name__, e), 'trace': traceback.format_exc()[-500:], 'spec': sc.jsonable(spec)}
+        if key in REPRO:
+            case['stand_alone_reproduction'] = REPRO[key]
+        ctx.violation(key, '%s: save_sim raises %s' % (where, type(e).__name__), case)
+        job.add('SaveLoad.%s.save' % kind, enc_header({'title': 'x', 'summary': 'prf.nc', 'source': 'i', 'created': 'c', 'modified': 'm'}) + ENC[kind](rec),
+                'raises', {'what': tag})
+        return
+    d1 = dump_nc(f1)
+    h = header_of(d1)
+    args = enc_header(h) + ENC[kind](rec)
+    job.add('SaveLoad.%s.save' % kind, args, 'file', {'real': d1, 'what': tag, 'skip': ()})
+    # --- load into a NEW object
+    try:
+        with sc.quiet():
+            m2 = Model(simfile=f1)
+    except Exception as e:
+        ctx.count('violation load-raises:' + kind)
+        ctx.violation('load-raises:' + kind, '%s: load_sim raises %s on the file save_sim wrote' % (where, type(e).__name__),
+                      {'error': '%s: %s' % (type(e).__name__, e), 'trace': traceback.format_exc()[-600:], 'spec': sc.jsonable(spec)})
+        return
+    nc = Dataset(f1)
+    try:
+        with sc.quiet():
+            direct, _chem = dispersed_phases.load_particle_from_nc_file(nc)
+    finally:
+        nc.close()
+    direct = [abs_particle(o, PTYPE[kind]) for o in direct]
+    rec2 = ABS[kind](m2)
+    rec2_direct = ABS[kind](m2, direct) if kind != 'sbm' else dict(rec2, particles=direct)
+    job.add('SaveLoad.%s.load' % kind, args, 'model', {'real': rec2_direct, 'kind': kind, 'what': tag})
+    for k in ARRAYS[kind]:
+        arr = getattr(m2, k)
+        if isinstance(arr, np.ma.MaskedArray) and np.ma.getmaskarray(arr).any():
+            ctx.violation('array:%s:masked' % k, '%s: reloaded %s has masked entries' % (where, k), {'spec': sc.jsonable(spec)})
+        ctx.evaluations += int(np.size(arr))
+    report_losses(ctx, diff_model(kind, rec, rec2, GROUP_TOL, state=False), rec['particles'], where, spec)
+    # --- far-field single-particle simulations stored beside the bent-plume file
+    if kind == 'bpm':
+        for i, p, q in farfield_pairs(m, m2):
+            ctx.count('farfield sub-simulation')
+            if not hasattr(q, 'sbm'):
+                ctx.violation('not-restored:farfield.sbm', '%s: tracked particle %d has no sbm after load' % (where, i), {'spec': sc.jsonable(spec)})
+                continue
+            ra, rb = abs_sbm(p.sbm), abs_sbm(q.sbm)
+            report_losses(ctx, diff_model('sbm', ra, rb, GROUP_TOL, state=False), ra['particles'], where + ' far-field track of particle %d' % i, spec, prefix='')
+            fs = f1.split('.nc')[0] + '%3.3d.nc' % i
+            ds = dump_nc(fs)
+            job.add('SaveLoad.sbm.save', enc_header(header_of(ds)) + enc_sbm(ra), 'file', {'real': ds, 'what': tag + ' far-field %d' % i, 'skip': ()})
+    # --- re-save, re-load
+    f2 = os.path.join(cdir, 'sim2.nc')
+    try:
+        with sc.quiet():
+            m2.save_sim(f2, 'prf.nc', 'C18 profile info')
+        d2 = dump_nc(f2)
+        job.add('SaveLoad.%s.resave' % kind, args, 'file', {'real': d2, 'what': 're-saved ' + tag, 'skip': DATE_ATTRS})
+        soft = [x for x in diff_files(d1, d2, skip_attr_values=DATE_ATTRS) if 'delta_groups' not in x]
+        if soft:
+            ctx.violation('resave-differs:' + kind, '%s: saving the reloaded simulation gives a different file' % where,
+                          {'differences': soft[:5], 'spec': sc.jsonable(spec)})
+        with sc.quiet():
+            m3 = Model(simfile=f2)
+        for field, a, b in diff_model(kind, rec2, ABS[kind](m3), GROUP_TOL, state=False):
+            ctx.violation('reload-differs:' + field, '%s: second reload differs from the first in %s' % (where, field),
+                          {'field': field, 'first': a, 'second': b, 'spec': sc.jsonable(spec)})
+    except Exception as e:
+        ctx.violation('resave-raises:' + kind, '%s: re-saving / re-loading the reloaded simulation raises %s' % (where, type(e).__name__),
+                      {'error': '%s: %s' % (type(e).__name__, e), 'trace': traceback.format_exc()[-600:], 'spec': sc.jsonable(spec)})
+    # --- text export carries the same numbers as the binary file
+    try:
+        base = os.path.join(cdir, 'txt')
+        with sc.quiet():
+            m.save_txt(base, 'prf.nc', 'C18 profile info')
+        pairs = {'sbm': [(base + '.txt', 't', 'y')], 'bpm': [(base + '.txt', 't', 'q')],
+                 'spm': [(base + '_inner.txt', 'zi', 'yi'), (base + '_outer.txt', 'zo', 'yo')]}[kind]
+        for fn, kx, ky in pairs:
+            tab = np.atleast_2d(np.loadtxt(fn))
+            ctx.evaluations += tab.size
+            if not (same(tab[:, 0], rec2[kx]) and same(tab[:, 1:], rec2[ky])):
+                ctx.violation('txt-differs:' + kind, '%s: %s does not carry the numbers of the binary file (%s, %s)' % (where, os.path.basename(fn), kx, ky),
+                              {'shape text': list(tab.shape), 'shape binary': [len(rec2[kx]), list(np.shape(rec2[ky]))], 'spec': sc.jsonable(spec)})
+        if kind == 'bpm':
+            for i, p, _q in farfield_pairs(m, m2):
+                tab = np.atleast_2d(np.loadtxt(base + '%3.3d.txt' % i))
+                if not (same(tab[:, 0], farr(p.sbm.t)) and same(tab[:, 1:], farr(p.sbm.y))):
+                    ctx.violation('txt-differs:bpm.farfield', '%s: far-field text export differs' % where, {'spec': sc.jsonable(spec)})
+    except Exception as e:
+        ctx.violation('save_txt-raises:' + kind, '%s: save_txt / reading it back raises %s' % (where, type(e).__name__),
+                      {'error': '%s: %s' % (type(e).__name__, e), 'trace': traceback.format_exc()[-600:], 'spec': sc.jsonable(spec)})
+    # --- the re-attached profile interpolates like the one the simulation used
+    r = np.random.default_rng(spec['profile']['zseed'] + 7)
+    zz = r.uniform(-10., spec['profile']['H'] + 20., 100)
+    q = ['temperature', 'salinity', 'pressure', 'ua', 'va', 'wa'] + list(spec['profile']['chems'])
+    if m2.profile is None or not same(m.profile.get_values(zz, q), m2.profile.get_values(zz, q)):
+        ctx.violation('profile-reattach-differs', '%s: the profile attached on load does not interpolate like the original' % where,
+                      {'spec': sc.jsonable(spec)})
+    # --- the profile file has moved: the loaders document that they continue without it
+    f3 = os.path.join(cdir, 'sim3.nc')
+    try:
+        with sc.quiet():
+            m.save_sim(f3, 'moved_away.nc', 'C18 profile info')
+            m4 = Model(simfile=f3)
+        ctx.count('no-profile load ok ' + kind)
+        for k in ARRAYS[kind]:
+            if not same(farr(getattr(m4, k)), rec[k]):
+                ctx.violation('array:' + k, '%s: %s differs after loading without the profile file' % (where, k), {'spec': sc.jsonable(spec)})
+    except Exception as e:
+        key = 'load-raises:%s:no-profile' % kind
+        ctx.count('violation ' + key)
+        case = {'error': '%s: %s' % (type(e).__name__, e), 'trace': traceback.format_exc()[-500:], 'spec': sc.jsonable(spec)}
+        if key in REPRO:
+            case['stand_alone_reproduction'] = REPRO[key]
+        ctx.violation(key, '%s: load_sim raises %s when the profile file named in the save file is absent (documented: continues with a warning)' % (where, type(e).__name__), case)
+    ctx.evaluations += 1
+
+
+def layout_key(kind, rec):
+    ps = rec['particles']
+    lay = tuple((p['dbm']['sol'], len(p['m0'])) for p in ps)
+    n = {'sbm': np.shape(rec.get('y')), 'bpm': np.shape(rec.get('q')), 'spm': (np.shape(rec.get('yi')), np.shape(rec.get('yo')))}[kind]
+    return (kind, lay, len(rec.get('tracers', [])), n)
+
+
+def sim_plan(ctx):
+    """(kind, builder kwargs) — the quantifier's corners first, then random"""
+    r = ctx.rng
+    plan = [('sbm', {'kind': 'soluble'}), ('sbm', {'kind': 'inert'}),
+            ('bpm', {'kind': 'mixed', 'ntracers': 1, 'track': False, 'current': 0.2}),
+            ('bpm', {'kind': 'soluble', 'ntracers': r.choice([2, 3]), 'track': True, 'current': 0.1}),
+            ('bpm', {'kind': 'inert', 'ntracers': 0, 'track': False, 'current': 0.}),
+            ('spm', {'kind': r.choice(['mixed', 'soluble'])})]
+    extra = ctx.n(0, 54)
+    for i in range(extra):
+        k = ('sbm', 'bpm', 'bpm', 'spm')[i % 4] if i % 8 else 'spm'
+        plan.append((k, {}))
+    return plan
+
+
+def run(ctx, lean_ok):
+    os.makedirs(SCRATCH, exist_ok=True)
+    tmp = tempfile.mkdtemp(prefix='run-', dir=SCRATCH)
+    try:
+        _run(ctx, lean_ok, tmp)
+    finally:
+        shutil.rmtree(tmp, ignore_errors=True)
+
+
+def _run(ctx, lean_ok, tmp):
+    rng = ctx.rng
+    job = Job()
+    # ---- A. particle writer / reader alone, all three particle classes ---------------------------
+    for i in range(ctx.n(36, 600)):
+        spec = sc.particle_list_spec(rng, (0, 1, 2)[i % 3])
+        check_particle_list(ctx, job, tmp, i, spec)
+        ctx.nontrivial.add(('list', spec['ptype'], spec['kind'], tuple(spec['composition']),
+                            tuple(len(p['dbm'].get('user_data', {})) for p in spec['particles'])))
+        if i < 2:
+            ctx.sample({'particle list': {'class': spec['ptype'], 'kind': spec['kind'], 'composition': spec['composition'],
+                                          'n': len(spec['particles'])}})
+    # ---- B. profile files -------------------------------------------------------------------------
+    for i in range(ctx.n(3, 40)):
+        ps = sc.profile_spec(rng, chems=rng.choice([(), ('oxygen',), ('methane', 'oxygen')]))
+        path, _p = check_profile(ctx, job, tmp, i, ps)
+        os.remove(path)
+    # ---- C. real simulations ---------------------------------------------------------------------
+    mk = {'sbm': sc.sbm_spec, 'bpm': sc.bpm_spec, 'spm': sc.spm_spec}
+    for n, (kind, kw) in enumerate(sim_plan(ctx)):
+        m = spec = None
+        for attempt in range(6):
+            spec = mk[kind](rng, **kw)
+            cdir = os.path.join(tmp, 'case%d' % n)
+            shutil.rmtree(cdir, ignore_errors=True)
+            os.makedirs(cdir)
+            try:
+                with sc.quiet():
+                    nc, _d, _n, _u, _c = sc.write_profile(spec['profile'], os.path.join(cdir, 'prf.nc'))
+                    nc.close()
+                prf = sc.profile_from_file(os.path.join(cdir, 'prf.nc'))
+                m = sc.RUN[kind](spec, prf)
+                ok = {'sbm': lambda: len(m.t) > 3, 'bpm': lambda: len(m.t) > 3, 'spm': lambda: len(m.zi) > 3 and len(m.zo) > 1}[kind]()
+                if ok:
+                    break
+            except Exception as e:      # the simulation itself failed: not a completed simulation (C20's business)
+                ctx.count('simulation failed (%s: %s), respecified' % (kind, type(e).__name__))
+            m = None
+        if m is None:
+            ctx.notes.append('no completed %s simulation for plan entry %d' % (kind, n))
+            continue
+        tag = '%s case %d' % (kind, n)
+        rec = ABS[kind](m)
+        ctx.nontrivial.add(layout_key(kind, rec))
+        ctx.count('%s %s' % (kind, spec['kind']))
+        if kind == 'bpm':
+            ctx.count('bpm tracers=%d' % len(spec['tracers']))
+            ctx.count('bpm track=%s' % spec['track'])
+            for p in m.particles:
+                ctx.count('bpm particle %s the plume at the end' % ('inside' if p.integrate else 'outside'))
+        if n < 4:
+            ctx.sample({'simulation': kind, 'kind': spec['kind'], 'rows': int(len(rec[ARRAYS[kind][0]])),
+                        'state vector': int(np.shape(rec[ARRAYS[kind][1]])[1]), 'particles': len(rec['particles'])})
+        check_sim(ctx, job, cdir, kind, m, spec, tag)
+        shutil.rmtree(cdir, ignore_errors=True)
+    # ---- D. the Lean model on the same records -----------------------------------------------------
+    if not lean_ok:
+        return
+    out = run_driver(ctx, 'C18', job.lines)
+    if out is None:
+        return
+    nbad = {}
+    ntot = {}
+    for (name, kind, pl), res in zip(job.expect, out):
+        ntot[name] = ntot.get(name, 0) + 1
+        diffs = []
+        if isinstance(res, tuple):
+            diffs = ['driver: ' + res[1][:200]]
+        elif kind == 'raises':
+            if res[0] != 'raises':
+                diffs = ['the real writer raises, the model writes a file']
+        elif res[0] != 'ok':
+            diffs = ['the model says the writer raises, the real writer wrote a file']
+        else:
+            r = Rd(res[1:])
+            if kind == 'file':
+                diffs = diff_files(pl['real'], dec_file(r), skip_attr_values=pl['skip'])
+            elif kind == 'particles':
+                ps = dec_particles(r)
+                chem = r.names()
+                diffs = ['%s: real %s model %s' % (f, str(a)[:60], str(b)[:60]) for f, a, b in diff_particles(pl['real'], ps, TOL['gen_vs_source'], True)]
+                if chem != pl['chem']:
+                    diffs.append('composition: real %r model %r' % (pl['chem'], chem))
+            elif kind == 'model':
+                rec = DEC[pl['kind']](r)
+                diffs = ['%s: real %s model %s' % (f, str(a)[:60], str(b)[:60]) for f, a, b in diff_model(pl['kind'], pl['real'], rec, TOL['gen_vs_source'], True)]
+                for k in ('ns', 'nsi', 'nso'):
+                    if k in rec and rec[k] != pl['real'][k]:
+                        diffs.append('%s: real %r model %r' % (k, pl['real'][k], rec[k]))
+            elif kind == 'profile':
+                for j, nme in enumerate(pl['names']):
+                    a, u, v = r.s(), r.s(), r.nx()
+                    if a != nme or u != pl['units'][j] or not same(v, pl['real'][:, j]):
+                        diffs.append('column %s (%s): model %s (%s)' % (nme, pl['units'][j], a, u))
+            if not diffs and not r.done():
+                diffs = ['trailing output']
+        if diffs:
+            nbad[name] = nbad.get(name, 0) + 1
+            if sum(nbad.values()) <= 4:
+                ctx.broken.append(('correspondence', '%s on %s' % (name, pl['what']), '; '.join(diffs[:4])[:1200]))
+    for name in sorted(ntot):
+        ctx.oblige('correspondence %s == real code on %d cases' % (name, ntot[name]), nbad.get(name, 0) == 0,
+                   '%d disagreements' % nbad.get(name, 0))
